@@ -18,7 +18,8 @@
      spec_lookup e ty syn sec k     first defined [layer_value] scanning documented_order from
                                     its most specific end (User) down to Default.              *)
 From Emmet Require Import lib.Base lib.ConfigLib gen.GenLayerOrder gen.GenConfig model.Config
-  proofs.ConfigProofs proofs.ConfigTables proofs.ConfigTablesExt proofs.ConfigPurity.
+  proofs.ConfigProofs proofs.ConfigTables proofs.ConfigTablesExt proofs.ConfigPurity
+  lib.ConfigVal proofs.ConfigCanon proofs.ConfigExpand proofs.ConfigExpandTables proofs.ConfigExpandExamples.
 
 (* ---- the order of the update statements read from the source IS the documented one
    (swapping two `result.update` lines, or fetching a layer from the other table or under
@@ -237,6 +238,76 @@ Example C20_purity_nonvacuous :
              heap_get h' 8 = Some [(ka, VData 1%Z); (s_html, VData 3%Z)] /\
              firstn 7 h' = h.
 Proof. cbv zeta. eexists. split; [vm_compute; reflexivity|]. split; reflexivity. Qed.
+
+(* ---- THROUGH EXPAND (proofs/ConfigExpand.v).  [expand_model_gen css b u g abbr] models
+   emmet.expand(abbr, config, global_config): c := config_init b u g (the model the theorems above speak
+   about), then what expand() reads of the resolved configuration ([view c]: type, syntax, options[k] BY
+   LOOKUP for the option keys the pipelines read, the merged snippets and variables in key order, the
+   text / maxRepeat entries of the call's own config) is decoded into the configuration records of the
+   pipeline models and handed to [expand_markup_str] (model/MarkupExpand.v) or, for type 'stylesheet', to
+   [css] (the stylesheet pipeline model uses floats: the instance with the real one is
+   proofs/ConfigExpandCss.v expand_model, theorem expand_model_layers_congruent; here [css] is ANY function).
+   Values are [cval] (lib/ConfigVal.v); the values of the built-in tables are regenerated from the source
+   (gen/GenConfigVals.v).  The model is executed against emmet.expand on every expand-visible cell of the
+   C20 table (harness/props/c20.py, run/CfgexpandRun.v, run/CfgexpandShow.v).
+
+   Every option the expand model decodes, and every snippet and variable it hands to a pipeline, is the value
+   of the most specific layer that defines it (the SPEC [spec_lookup] of C20_merged_lookup) *)
+Theorem C20_expand_uses_merged :
+  forall (b : builtin cval) (u : user_config cval) (g : cfg_table cval) (k : str),
+    (In k option_keys ->
+       opt (view (config_init b u g)) k
+       = spec_lookup (config_env b u g) (resolved_type u) (resolved_syntax b u) s_options k) /\
+    dget k (v_snippets (view (config_init b u g)))
+    = spec_lookup (config_env b u g) (resolved_type u) (resolved_syntax b u) s_snippets k /\
+    dget k (v_variables (view (config_init b u g)))
+    = spec_lookup (config_env b u g) (resolved_type u) (resolved_syntax b u) s_variables k.
+Proof.
+  intros b u g k. split; [apply view_option_is_spec_lookup|apply view_snippet_is_spec_lookup].
+Qed.
+Print Assumptions C20_expand_uses_merged.
+
+(* the canonical (key-sorted) form in which the merged snippets / variables reach the pipelines is a function
+   of the lookups alone: two dicts that answer every lookup alike have the same canonical form, and the
+   canonical form answers every lookup as the dict does *)
+Theorem C20_canonical_form :
+  forall (V : Type) (d1 d2 : dict V),
+    wf d1 -> wf d2 -> (forall k, dget k d1 = dget k d2) ->
+    canon d1 = canon d2 /\ forall k, dget k (canon d1) = dget k d1.
+Proof. intros V d1 d2 W1 W2 H. split; [now apply canon_unique|intro k; apply dget_canon]. Qed.
+Print Assumptions C20_canonical_form.
+
+(* MAIN: the result of expand depends on the layers only through the effective value of each key.
+   [same_effective b u g u' g']: the two stacks (call's config + global config, over the same built-in
+   tables) resolve to the same type and syntax, give every key of every section the same effective value
+   ([spec_lookup]: the most specific defining layer), and agree on the call's other entries.  Then, for every
+   abbreviation and every stylesheet function, the expand results are equal. *)
+Theorem C20_expand_layers_congruent :
+  forall (css : cview -> str -> option (res str))
+         (b : builtin cval) (u : user_config cval) (g : cfg_table cval) (u' : user_config cval) (g' : cfg_table cval)
+         (abbr : str),
+    same_effective b u g u' g' ->
+    expand_model_gen css b u g abbr = expand_model_gen css b u' g' abbr.
+Proof. exact expand_layers_congruent. Qed.
+Print Assumptions C20_expand_layers_congruent.
+
+(* non-vacuity on the generated tables: output.indent = two spaces given by the call's own config, or by the
+   global config for the type 'markup': different stacks, same effective lookups, same (visible) result;
+   without the option the result differs -- the model is sensitive to what the layers say *)
+Example C20_expand_nonvacuous :
+  let nocss : cview -> str -> option (res str) := fun _ _ => None in
+  let abbr : str := [117; 108; 62; 108; 105]%N (* ul>li *) in
+  same_effective builtin_cvals ex_u1 ex_g1 ex_u2 ex_g2 /\
+  ex_g1 <> ex_g2 /\
+  expand_model_gen nocss builtin_cvals ex_u1 ex_g1 abbr
+    = Some (Ok [60; 117; 108; 62; 10; 32; 32; 60; 108; 105; 62; 60; 47; 108; 105; 62; 10; 60; 47; 117; 108; 62]%N) /\
+  expand_model_gen nocss builtin_cvals ex_u2 ex_g2 abbr = expand_model_gen nocss builtin_cvals ex_u1 ex_g1 abbr /\
+  expand_model_gen nocss builtin_cvals ex_u2 ex_g1 abbr
+    = Some (Ok [60; 117; 108; 62; 10; 9; 60; 108; 105; 62; 60; 47; 108; 105; 62; 10; 60; 47; 117; 108; 62]%N).
+Proof.
+  cbv zeta. split; [exact ex_same_effective|]. split; [discriminate|].
+  split; [vm_compute; reflexivity|]. split; [vm_compute; reflexivity|]. vm_compute; reflexivity.
+Qed.
 
 (* ---- non-vacuity: on the generated tables, Config({'syntax': 'xsl'}, global) with a
    global syntax override and a user override: the user's value wins for "a", the global
